@@ -160,6 +160,14 @@ pub fn child_main(args: &[String]) -> ! {
     let cfg = configs();
     let spec = &cfg[idx].1;
     let r = if let (Some(seed), Some(clock)) = (args.get(1).and_then(|s| s.parse().ok()), args.get(2).and_then(|s| s.parse().ok())) {
+        // optionally an earlier build in this process, under another wall clock: it must leave no trace in the next one
+        if let Some(warm) = args.get(3).and_then(|s| s.parse::<i64>().ok()) {
+            let mut other = cfg[1].1.clone();
+            other.name = "warmup".into();
+            other.source_date = Some((warm - 100).max(0) as u32);
+            let _ = build_with(&env, &other, seed ^ 0x55, warm);
+            let _ = build_with(&env, &cfg[0].1, seed ^ 0xaa, warm);
+        }
         build_with(&env, spec, seed, clock).map(|x| x.0)
     } else {
         // the operating system's own randomness and clock
@@ -290,6 +298,9 @@ pub fn run(ctx: &Ctx) -> i32 {
     envs.push(EnvDev { name: "TMPDIR elsewhere", vars: vec![("TMPDIR", env.dir().to_string_lossy().to_string())], cwd: None, umask: None });
     envs.push(EnvDev { name: "umask 077", vars: vec![], cwd: None, umask: Some(0o077) });
     envs.push(EnvDev { name: "umask 000", vars: vec![], cwd: None, umask: Some(0) });
+    // process history: other packages were built in the same process before, under a wall clock before / after the source date
+    envs.push(EnvDev { name: "earlier builds in the process, a day before the source date", vars: vec![("VCHECK_WARM_CLOCK", (SD as i64 - 86_400).to_string())], cwd: None, umask: None });
+    envs.push(EnvDev { name: "earlier builds in the process, a day after the source date", vars: vec![("VCHECK_WARM_CLOCK", (SD as i64 + 86_400).to_string())], cwd: None, umask: None });
     let runs = envs.len() * 2;
     for (ci, (name, _)) in cfg.iter().enumerate() {
         if cfg[ci].1.sign == Some(Key::Rsa4096) {
@@ -317,8 +328,12 @@ pub fn run(ctx: &Ctx) -> i32 {
                     });
                 }
             }
-            if r % 2 == 1 {
-                cmd.arg((1000 + r).to_string()).arg((SD as i64 + r as i64 * 977).to_string());
+            let warm = e.vars.iter().find(|(k, _)| *k == "VCHECK_WARM_CLOCK").map(|(_, v)| v.clone());
+            if r % 2 == 1 || warm.is_some() {
+                cmd.arg((1000 + r).to_string()).arg((SD as i64 + 5 + r as i64 * 977).to_string());
+            }
+            if let Some(w) = warm {
+                cmd.arg(w);
             }
             match cmd.output() {
                 Ok(o) => {
